@@ -17,7 +17,7 @@ import (
 // The last two events of the case run CONCURRENTLY on two nodes (thread 0 = the second to last
 // event, thread 1 = the last one; they must belong to different nodes).  Every Get/Set/Delete the
 // two handlers issue on the shared store is one step; the 01-string says which thread takes the
-// next step (a finished thread is skipped, the rest runs freely when the string is used up).
+// next step (a finished thread is skipped; when the string is used up thread 0 runs to its end, then thread 1).
 // The observation of both events is the one taken after both handlers returned.
 
 type gate struct {
@@ -39,7 +39,11 @@ func newGate() *gate {
 func (g *gate) enter(t int, op, key string) {
 	g.mu.Lock()
 	defer g.mu.Unlock()
-	if !g.active || t < 0 {
+	if t < 0 {
+		return
+	}
+	if !g.active { // the schedule is used up: the rest runs freely, but stays in the trace
+		g.trace = append(g.trace, string(rune('0'+t))+":"+op+":"+key)
 		return
 	}
 	g.waiting[t] = true
@@ -81,6 +85,12 @@ func (g *gate) step(t int) {
 	}
 }
 
+func (g *gate) isDone(t int) bool {
+	g.mu.Lock()
+	defer g.mu.Unlock()
+	return g.done[t]
+}
+
 func (g *gate) release() {
 	g.mu.Lock()
 	g.active = false
@@ -108,17 +118,27 @@ func (s *gatedStore) Delete(key string) error {
 	return s.Storage.Delete(key)
 }
 
-// racy reports whether the executed trace has a check-then-act window on the client index:
-// one thread read the index, the other thread wrote it, then the first thread deleted/overwrote it.
+// racy reports whether the executed trace has a check-then-act window on a per-client key (the connstate client
+// index or the cloud runtime state): one thread read it, the other thread wrote it, then the first thread
+// deleted/overwrote it.
 func racy(trace []string) bool {
+	for _, fam := range []string{":tunnox:client_conn:", ":tunnox:runtime:client:state:"} {
+		if racyOn(trace, fam) {
+			return true
+		}
+	}
+	return false
+}
+
+func racyOn(trace []string, fam string) bool {
 	for i, a := range trace {
-		if !strings.Contains(a, ":get:tunnox:client_conn:") {
+		if !strings.Contains(a, ":get"+fam) {
 			continue
 		}
 		t := a[0]
 		seenOther := false
 		for _, b := range trace[i+1:] {
-			if !strings.Contains(b, ":tunnox:client_conn:") {
+			if !strings.Contains(b, fam) {
 				continue
 			}
 			if b[0] != t && strings.Contains(b, ":set:") {
@@ -136,9 +156,9 @@ func racy(trace []string) bool {
 }
 
 func genSched(tier string, emit func(string)) {
-	n := 6
+	n := 7
 	if tier == "thorough" {
-		n = 8
+		n = 10
 	}
 	fam := []string{
 		// node 1 registers the reconnected client while node 0 cleans the old connection up
